@@ -14,6 +14,11 @@ from .common import (GEOM, NETLIST, MODULE, NTYPES, YREAD, YWRITE, UTILS, exit_f
 
 FLAG_KEYS = ["KW_HARD", "KW_FIXED", "KW_TERMINAL", "KW_FLIP"]
 ALL_KEYS = ["KW_AREA", "KW_TERMINAL", "KW_FIXED", "KW_HARD", "KW_FLIP", "KW_CENTER", "KW_ASPECT_RATIO", "KW_RECTANGLES"]
+from framelint.canon import canon_function as _canon_function_expanded
+
+def canon_function(fi, model=None, opts=None):   # rules of this file match shapes: look through every local
+    return _canon_function_expanded(fi, model, opts, expand=True)
+
 
 
 def reader_keys(ctx: Ctx) -> set[str]:
